@@ -1834,7 +1834,11 @@ fn verify_nsec(
     // For a no data response with a directly matching NSEC record, we just need to verify the NSEC
     // type set does not contain the query type or CNAME.
     if let Some((_, nsec_data)) = nsecs.iter().find(|(name, _)| &query.name == *name) {
-        return if nsec_data.type_set().contains(query.query_type)
+        return if is_ancestor_delegation(nsec_data) && query.query_type != RecordType::DS {
+            // The NSEC record comes from the parent side of a zone cut: only the child zone can
+            // tell which types other than DS exist at the query name. (RFC 6840 4.1)
+            nsec1_yield(Proof::Bogus, "direct match is an ancestor delegation NSEC")
+        } else if nsec_data.type_set().contains(query.query_type)
             || nsec_data.type_set().contains(RecordType::CNAME)
         {
             nsec1_yield(Proof::Bogus, "direct match, record type should be present")
@@ -2030,9 +2034,22 @@ fn find_nsec_covering_record<'a>(
     nsecs.iter().copied().find(|(nsec_name, nsec_data)| {
         let next_domain_name = nsec_data.next_domain_name();
 
+        // An NSEC record from the parent side of a zone cut says nothing about the names below
+        // the cut, those belong to the child zone. (RFC 6840 4.1)
+        if is_ancestor_delegation(nsec_data) && nsec_name.zone_of(test_name) {
+            return false;
+        }
+
         test_name > nsec_name
             && (test_name < next_domain_name || Some(next_domain_name) == soa_name)
     })
+}
+
+/// Returns true if the type set is that of an "ancestor delegation" NSEC record, i.e. one owned by
+/// a delegation point in the parent zone: NS bit set, SOA bit clear. (RFC 6840 4.1)
+fn is_ancestor_delegation(nsec_data: &NSEC) -> bool {
+    let type_set = nsec_data.type_set();
+    type_set.contains(RecordType::NS) && !type_set.contains(RecordType::SOA)
 }
 
 /// Logs a debug message and yields a Proof type for return
@@ -2679,6 +2696,57 @@ mod test {
                 ],
             ),
             Proof::Bogus
+        );
+
+        Ok(())
+    }
+
+    // An NSEC record from the parent side of a zone cut can only be used to deny the DS RRset
+    // (RFC 6840 4.1)
+    #[test]
+    fn nsec_ancestor_delegation() -> Result<(), ProtoError> {
+        subscribe();
+
+        // The NSEC record at the delegation of sub.example., as found in the example. zone.
+        let soa_name = Name::from_ascii("example.")?;
+        let nsec_name = Name::from_ascii("sub.example.")?;
+        let nsec = rdataNSEC::new(Name::from_ascii("t.example.")?, [NS, NSEC, RRSIG]);
+        let nsecs = [(&nsec_name, &nsec)];
+
+        // It doesn't tell which record types exist at the apex of the child zone...
+        assert_eq!(
+            verify_nsec(
+                &Query::new(nsec_name.clone(), A),
+                Some(&soa_name),
+                ResponseCode::NoError,
+                &[],
+                &nsecs,
+            ),
+            Proof::Bogus
+        );
+
+        // ...nor which names exist below the zone cut...
+        assert_eq!(
+            verify_nsec(
+                &Query::new(Name::from_ascii("a.sub.example.")?, A),
+                Some(&soa_name),
+                ResponseCode::NXDomain,
+                &[],
+                &nsecs,
+            ),
+            Proof::Bogus
+        );
+
+        // ...but it does prove that there is no DS RRset.
+        assert_eq!(
+            verify_nsec(
+                &Query::new(nsec_name.clone(), crate::proto::rr::RecordType::DS),
+                Some(&soa_name),
+                ResponseCode::NoError,
+                &[],
+                &nsecs,
+            ),
+            Proof::Secure
         );
 
         Ok(())
